@@ -9,6 +9,7 @@ theorem verdict : (classify Generated.factsC24).Sound (Holds Generated.factsC24)
 #print axioms verdict
 #print axioms faithful_of_allPropagate
 #print axioms holds_of_allPropagate
+#print axioms classify_sound
 #print axioms not_faithful_of_swallow
 #print axioms gzip_swallows_witness
 
